@@ -214,13 +214,13 @@ func CheckC17(c C17Case, rec *Rec) error {
 		if len(c.Others) > 0 {
 			used = c.Others[0].Opts
 		}
-		buildOptions = func(o OptSpec) *neat.Options {
-			u := used.Build()
-			if pop, err := genetics.NewPopulation(xorStart().Build(), u); err == nil {
-				_ = newExecutor(u).NextEpoch(u.NeatContext(), 0, pop)
-			}
-			return deriveOptions(u, o.Build())
+		// the used object is exercised once, before the second run starts (nothing may draw from the random source
+		// while the scenario is running)
+		u := used.Build()
+		if pop, err := genetics.NewPopulation(xorStart().Build(), u); err == nil {
+			_ = newExecutor(u).NextEpoch(u.NeatContext(), 0, pop)
 		}
+		buildOptions = func(o OptSpec) *neat.Options { return deriveOptions(u, o.Build()) }
 		rec.Class("second run with options copied from a used object")
 	}
 	d2, w2, _, err2 := evolve(sc)
